@@ -1,4 +1,4 @@
 SPECIFICATION Spec
-CONSTANTS NG = 2 Rounds = 2 Modes = {"w"} LeakOnCancel = TRUE
+CONSTANTS NG = 2 Rounds = 2 Modes = {"w"} LeakOnCancel = TRUE DeafWaiter = FALSE
 INVARIANTS Contract
 CHECK_DEADLOCK FALSE
